@@ -27,8 +27,10 @@ Lemma node_locate_sd k l : node_locate (Node K_SourceDescription [Node k [Leaf l
 Proof. unfold node_locate. cbn. destruct l; reflexivity. Qed.
 
 Section Flat.
-Variables (c : cfg) (rec : rec_t) (s : bytes) (p : path) (ignore : bool) (rd idp : N).
-Let f := step c rec s p ignore false rd idp.
+(* resolve depth 0: the text of a file or of the caller's string, not the expansion of a macro body
+   (there a one-line comment that reaches the end of the text is closed by a newline) *)
+Variables (c : cfg) (rec : rec_t) (s : bytes) (p : path) (ignore : bool) (idp : N).
+Let f := step c rec s p ignore false 0 idp.
 
 Lemma item_events k l x :
   item_kind_ok k = true -> quiet x ->
